@@ -28,7 +28,7 @@ func promotionLadders(ctx context.Context, r *vkit.Run, prop string, s storage.S
 		b := fmt.Sprintf("ladder-%d", li)
 		key, helper := "k", "helper"
 		nUploads := lr.Intn(3)
-		kinds := []string{"put", "copy", "append", "null-overwrite", "key-delete", "put"}
+		kinds := []string{"put", "copy", "append", "null-overwrite", "key-delete", "put", "suspended-append"}
 		var plan []string
 		for i := 0; i < nUploads; i++ {
 			plan = append(plan, "complete")
@@ -68,6 +68,18 @@ func promotionLadders(ctx context.Context, r *vkit.Run, prop string, s storage.S
 				})
 			case "key-delete":
 				add(func(*vmodel.Model) *vmodel.Op { return &vmodel.Op{Kind: vmodel.OpDelete, Bucket: b, Key: key} })
+			case "suspended-append":
+				// while suspended, an append onto a current NON-null version has to write a new
+				// null version and leave the version it extends alone
+				add(func(*vmodel.Model) *vmodel.Op {
+					return &vmodel.Op{Kind: vmodel.OpVersioning, Bucket: b, Status: "Suspended"}
+				})
+				add(func(*vmodel.Model) *vmodel.Op {
+					return &vmodel.Op{Kind: vmodel.OpAppend, Bucket: b, Key: key, Body: lr.Bytes(lr.Range(1, 300))}
+				})
+				add(func(*vmodel.Model) *vmodel.Op {
+					return &vmodel.Op{Kind: vmodel.OpVersioning, Bucket: b, Status: "Enabled"}
+				})
 			case "null-overwrite":
 				add(func(*vmodel.Model) *vmodel.Op {
 					return &vmodel.Op{Kind: vmodel.OpVersioning, Bucket: b, Status: "Suspended"}
